@@ -38,6 +38,9 @@ func (eval Evaluator) Average(ctIn *rlwe.Ciphertext, logBatchSize int, opOut *rl
 	// The inner sum below is evaluated on the receiver: it must carry the metadata of the input.
 	*opOut.MetaData = *ctIn.MetaData
 
+	// ... and live at the common level (a receiver of higher level must not keep its stale upper rows).
+	opOut.Resize(opOut.Degree(), level)
+
 	n := 1 << (ctIn.LogDimensions.Cols - logBatchSize)
 
 	// pre-multiplication by n^-1
